@@ -87,7 +87,7 @@ struct SeqEngine final : Engine {
     if (keykind == 1) L = focus == 16 ? static_cast<int>(r.range(1, 8)) : (nonrep ? static_cast<int>(r.range(10, 24)) : static_cast<int>(r.range(1, 24)));
     std::vector<std::string> pool;
     const auto shape = r.below(100);
-    const size_t cap = focus == 8 ? 70 : (tier == "thorough" ? 600 : 320);
+    const size_t cap = focus == 8 ? (r.chance(0.2) ? 110 : 70) : (tier == "thorough" ? 600 : 320);
     std::string base(static_cast<size_t>(L), '\0');
     for (auto& ch : base) ch = static_cast<char>(r.chance(0.2) ? (r.chance(0.5) ? 0x00 : 0xFF) : static_cast<int>(r.below(256)));
     if (shape < 12 && !nonrep) {  // dense range ending in the last byte(s)
@@ -126,7 +126,7 @@ struct SeqEngine final : Engine {
     if (pool.size() < 2) { std::string k = base; k[0] = static_cast<char>(k[0] ^ 1); pool.push_back(base); pool.push_back(k); }
     for (size_t i = pool.size(); i > 1; i--) std::swap(pool[i - 1], pool[r.below(i)]);
     // ---- history
-    const int maxops = focus == 8 ? 120 : (tier == "thorough" ? 400 : 250);
+    const int maxops = focus == 8 ? (cap > 70 ? 200 : 120) : (tier == "thorough" ? 400 : 250);
     const int nops = static_cast<int>(r.range(20, maxops));
     const int nphases = static_cast<int>(r.range(1, 3));
     std::set<std::string> present;
